@@ -388,4 +388,107 @@ theorem elemUnify_sound (x y r : List Char) (hx : elemWf x = true) (hy : elemWf 
       simp only [matchName, Option.getD] <;> (repeat' split) <;> simp_all
   · simp at h
 
+/-! ### from compounds to `selector.unify` on compound selectors -/
+
+/-- `SelSet.isSuper` agrees with any unrolling deeper than the depth of *either* side -/
+theorem isSuper_eq_superN_either (q : SuperQuirks) (X Y : SelSet) (n : Nat)
+    (h : Selector.depthList X < n ∨ Selector.depthList Y < n) : SelSet.isSuper q X Y = superN q n X Y := by
+  rcases h with h | h
+  · exact isSuper_eq_superN q X Y n h
+  · unfold SelSet.isSuper
+    by_cases hle : Selector.depthList X + 1 ≤ n
+    · exact superN_stable q _ n X Y hle (Or.inl (Nat.lt_succ_self _))
+    · exact (superN_stable q n _ X Y (by omega) (Or.inr h)).symm
+
+/-- the fuelled compound test is the self-fuelling one once the fuel covers the left compound -/
+theorem compound_isSuper_fuel (q : SuperQuirks) (a u : Compound) (d : Nat) (h : a.depth ≤ d) :
+    Compound.isSuperW q (superN q d) a u = Compound.isSuper q a u := by
+  unfold Compound.isSuper Compound.isSuperW
+  apply Compound.isSuperG_congr (fun _ _ _ _ => rfl)
+  intro p hp p' _
+  apply Pseudo.isSuperW_congr
+  intro X Y hX _
+  have h2 := Compound.pseudo_depth_le a p hp
+  have h3 := Pseudo.arg_depth p X hX
+  have hlt : Selector.depthList X < d := by omega
+  exact ⟨(isSuper_eq_superN_either q X Y d (Or.inl hlt)).symm,
+    (isSuper_eq_superN_either q Y X d (Or.inr hlt)).symm⟩
+
+/-- `[a] ⊒ [u]` for compound selectors is the compound test -/
+theorem isSuper_leaf (q : SuperQuirks) (a u : Compound) :
+    SelSet.isSuper q [.leaf a] [.leaf u] = Compound.isSuper q a u := by
+  unfold SelSet.isSuper
+  simp only [superN, setSuperW, List.all_cons, List.all_nil, List.any_cons, List.any_nil,
+    Bool.or_false, Bool.and_true, Selector.isSuperW, Selector.isSuperC, Selector.compound]
+  apply compound_isSuper_fuel
+  simp [Selector.depthList, Selector.depth]
+
+/-- `Selector::unify` on two compound selectors is `CompoundSelector::unify` -/
+theorem Selector.unify_leaf (q : UnifyQuirks) (a b : Compound) :
+    Selector.unify q (.leaf a) (.leaf b)
+      = match Compound.unify q a b with | some u => [.leaf u] | none => [] := by
+  show unifyN q (23 + 1) (.leaf a) (.leaf b) = _
+  simp only [unifyN]
+  show (innerUnifyN q (22 + 1) (.leaf a) (.leaf b)).getD [] = _
+  simp only [innerUnifyN, Selector.relOf, Selector.compound]
+  cases Compound.unify q a b <;> simp
+
+/-! ### a compound selector unified with a complex selector -/
+
+theorem isSuper_leaf_any (q : SuperQuirks) (b : Compound) (x : Selector) :
+    SelSet.isSuper q [.leaf b] [x] = Compound.isSuper q b x.compound := by
+  unfold SelSet.isSuper
+  simp only [superN, setSuperW, List.all_cons, List.all_nil, List.any_cons, List.any_nil,
+    Bool.or_false, Bool.and_true, Selector.isSuperW, Selector.isSuperC]
+  apply compound_isSuper_fuel
+  simp [Selector.depthList, Selector.depth]
+
+theorem Selector.Refines.refl_of (C : Compound → Compound → Bool) :
+    ∀ (s : Selector), (∀ x ∈ s.compounds, C x x = true) → Selector.Refines C s s
+  | .leaf c, h => .leaf (h c (by simp [Selector.compounds]))
+  | .rel _ s c, h => .rel (h c (by simp [Selector.compounds]))
+      (Selector.Refines.refl_of C s fun x hx => h x (by simp [Selector.compounds, hx]))
+
+/-- replacing the rightmost compound by one below it gives a subselector -/
+theorem isSuper_setLast (q : SuperQuirks) (k : Rel) (s : Selector) (ca u : Compound)
+    (h : Compound.isSuper q ca u = true) :
+    SelSet.isSuper q [.rel k s ca] [.rel k s u] = true := by
+  unfold SelSet.isSuper
+  simp only [superN, setSuperW, List.all_cons, List.all_nil, List.any_cons, List.any_nil,
+    Bool.or_false, Bool.and_true, Selector.isSuperW]
+  have hd : (Selector.rel k s ca).depth ≤ Selector.depthList [Selector.rel k s ca] := by
+    simp [Selector.depthList]
+  simp only [Selector.depth] at hd
+  apply isSuperC_of_refines
+  apply Selector.Refines.rel
+  · have := compound_isSuper_fuel q ca u (Selector.depthList [Selector.rel k s ca]) (by omega)
+    unfold Compound.isSuperW at this ⊢
+    rw [this]; exact h
+  · apply Selector.Refines.refl_of
+    exact compounds_refl q _ s (by omega)
+
+theorem Selector.unify_rel_leaf (q : UnifyQuirks) (k : Rel) (s : Selector) (ca b : Compound) :
+    Selector.unify q (.rel k s ca) (.leaf b)
+      = match Compound.unify q ca b with
+        | some u => if u.isEmpty then [] else [.rel k s u]
+        | none => [] := by
+  have hf : 8 * ((Selector.rel k s ca).length + (Selector.leaf b).length) + 8
+      = (8 * s.length + 22) + 1 + 1 := by simp [Selector.length]; omega
+  unfold Selector.unify
+  rw [hf]
+  simp only [unifyN, innerUnifyN, Selector.relOf, Selector.compound]
+  cases Compound.unify q ca b <;> simp
+
+theorem Selector.unify_leaf_rel (q : UnifyQuirks) (k : Rel) (s : Selector) (ca b : Compound) :
+    Selector.unify q (.leaf b) (.rel k s ca)
+      = match Compound.unify q b ca with
+        | some u => if u.isEmpty then [] else [.rel k s u]
+        | none => [] := by
+  have hf : 8 * ((Selector.leaf b).length + (Selector.rel k s ca).length) + 8
+      = (8 * s.length + 22) + 1 + 1 := by simp [Selector.length]; omega
+  unfold Selector.unify
+  rw [hf]
+  simp only [unifyN, innerUnifyN, Selector.relOf, Selector.compound]
+  cases Compound.unify q b ca <;> simp
+
 end Sel
